@@ -694,3 +694,154 @@ def column_domain(ctx, P, rule="COLUMN-DOMAIN", tus=None, floor=55, funcs=None):
                         ctx.ob(rule, "%s|%s[%s]|%s" % (fn.name, base, var, bound), ok, tu.loc(x), why)
     ctx.floor(rule, floor if (tus is None and funcs is None) else 1)
     return n
+
+
+# =============================================================================================
+# numpy's fixed-width names are macros for the platform enum constants (NPY_FLOAT64 -> NPY_DOUBLE ...): accept both spellings
+NPY_TYPE = {"double": ("NPY_FLOAT64", "NPY_DOUBLE"), "tsk_id_t": ("NPY_INT32", "NPY_INT"), "tsk_flags_t": ("NPY_UINT32", "NPY_UINT"),
+            "char": ("NPY_INT8", "NPY_BYTE")}
+
+
+def dict_interchange(ctx, P, S, rule="SCHEMA-DICT"):
+    ctx.rule(rule, "the dictionary interchange (asdict / fromdict / pickle) handles every column of every table: write_table_arrays "
+                   "lists it under its own name with its pointer, row count / ragged length and the numpy dtype of its element type; "
+                   "parse_<table>_table_dict looks the same key up, converts it with the same dtype and hands it to append_columns in "
+                   "the like-named slot; writer key set == reader key set")
+    tu = P.tus["module"]
+    wf = P.need("write_table_arrays", "module")
+    FW = Facts(P, wf)
+    wcols = {}
+    wrag = {}
+    for r, n, v in _initlist_rows(FW, wf, "tsklwt_table_col_t"):
+        if r and r[0].startswith('"'):
+            wcols[(v.replace("_cols", ""), _s(r[0]))] = (r, n)
+    for r, n, v in _initlist_rows(FW, wf, "tsklwt_ragged_col_t"):
+        if r and r[0].startswith('"'):
+            wrag[(v.replace("_ragged_cols", ""), _s(r[0]))] = (r, n)
+    for t, sc in S.items():
+        pl = PLURAL[t]
+        rf = P.need("parse_%s_table_dict" % t, "module")
+        FR = Facts(P, rf)
+        keys_read = {}
+        for a, n in FR.calls_to("get_dict_value") + FR.calls_to("get_dict_value_string") + FR.calls_to("get_dict_value_bytes"):
+            if len(a) >= 2 and a[1].startswith('"'):
+                keys_read[_s(a[1])] = a
+        conv = {}
+        for l, o, r, n in FR.assigns:
+            mm = re.match(r"table_read_column_array\((\w+)_input, (\w+), &(\w+), (\w+)\)", r)
+            if mm:
+                conv[mm.group(1)] = (mm.group(2), mm.group(3))
+            mo = re.match(r"table_read_offset_array\((\w+)_input, &(\w+), (\w+), (\w+)\)", r)
+            if mo:
+                conv[mo.group(1)] = ("offset", mo.group(3))
+        app = FR.calls_to("tsk_%s_table_append_columns" % t)
+        cal = P.func("tsk_%s_table_append_columns" % t, "tables")
+        pnames = [p.name for p in cal.params] if cal else []
+        whereW, whereR = FW.loc(wf.node), FR.loc(rf.node)
+        for col, elem in sc.fixed:
+            ent = wcols.get((t, col))
+            ok = ent is not None and ent[0][1] == "tables->%s.%s" % (pl, col) and ent[0][2] == "tables->%s.num_rows" % pl and ent[0][3] in NPY_TYPE[elem]
+            ctx.ob(rule, "%s|write|%s" % (t, col), ok, FW.loc(ent[1]) if ent else whereW,
+                   "{\"%s\", tables->%s.%s, tables->%s.num_rows, %s}; found %s" % (col, pl, col, pl, NPY_TYPE[elem][0], ent[0] if ent else None))
+            ok = col in keys_read and conv.get(col, (None,))[0] in NPY_TYPE[elem] and conv.get(col, (None, None))[1] == "num_rows"
+            ctx.ob(rule, "%s|read|%s" % (t, col), ok, whereR, "key \"%s\" converted as %s with length num_rows; found %s" % (col, NPY_TYPE[elem][0], conv.get(col)))
+        for col, elem in sc.ragged:
+            ent = wrag.get((t, col))
+            ok = ent is not None and ent[0][1] == "tables->%s.%s" % (pl, col) and ent[0][2] == "tables->%s.%s_offset" % (pl, col) \
+                and ent[0][3] == "tables->%s.num_rows" % pl and ent[0][4] == "tables->%s.%s_length" % (pl, col) and ent[0][5] in NPY_TYPE[elem]
+            ctx.ob(rule, "%s|write|%s" % (t, col), ok, FW.loc(ent[1]) if ent else whereW,
+                   "ragged {\"%s\", data, offset, num_rows, %s_length, %s}; found %s" % (col, col, NPY_TYPE[elem][0], ent[0] if ent else None))
+            ok = col in keys_read and (col + "_offset") in keys_read and conv.get(col, (None,))[0] in NPY_TYPE[elem] \
+                and conv.get(col, (None, None))[1] == col + "_length" and conv.get(col + "_offset", (None, None)) == ("offset", col + "_length")
+            ctx.ob(rule, "%s|read|%s" % (t, col), ok, whereR, "keys \"%s\"/\"%s_offset\" converted (%s, offsets checked against %s_length); found %s / %s"
+                   % (col, col, NPY_TYPE[elem][0], col, conv.get(col), conv.get(col + "_offset")))
+        # append_columns slots: argument text mentions the like-named column
+        if app and pnames:
+            a = app[0][0]
+            bad = []
+            for i, pn in enumerate(pnames):
+                if pn in ("self", "num_rows") or i >= len(a):
+                    continue
+                if not re.search(r"\b%s_(array|data)\b" % re.escape(pn), a[i]):
+                    bad.append("slot %d (`%s`) receives `%s`" % (i, pn, a[i]))
+            ctx.ob(rule, "%s|read|append-slots" % t, not bad and a[1] == "num_rows", FR.loc(app[0][1]), "; ".join(bad) or "every converted column goes to its own slot")
+        else:
+            ctx.ob(rule, "%s|read|append-slots" % t, False, whereR, "append_columns call not found")
+        wk = {c for (tt, c) in wcols if tt == t} | {c for (tt, c) in wrag if tt == t} | {c + "_offset" for (tt, c) in wrag if tt == t}
+        rk = set(keys_read) - {"metadata_schema"}
+        ctx.ob(rule, "%s|keyset" % t, wk == rk, whereR, "writer-only keys %s, reader-only keys %s" % (sorted(wk - rk), sorted(rk - wk)))
+        if sc.has_schema:
+            ctx.ob(rule, "%s|read|metadata_schema" % t, "metadata_schema" in keys_read and bool(FR.calls_to("tsk_%s_table_set_metadata_schema" % t)), whereR,
+                   "metadata_schema read and applied")
+
+
+CLS = {"individual": "IndividualTable", "node": "NodeTable", "edge": "EdgeTable", "migration": "MigrationTable", "site": "SiteTable",
+       "mutation": "MutationTable", "population": "PopulationTable", "provenance": "ProvenanceTable"}
+NPY_OFFSET = ("NPY_UINT64", "NPY_ULONG", "NPY_ULONGLONG")
+
+
+# same width and kind: bytes are handed out as signed or unsigned 8-bit (metadata is opaque bytes)
+GETTER_NPY = dict(NPY_TYPE, char=("NPY_INT8", "NPY_BYTE", "NPY_UINT8", "NPY_UBYTE"))
+SIZEOF_EQ = {"double": ("sizeof(double)",), "tsk_id_t": ("sizeof(tsk_id_t)", "sizeof(int32_t)"), "tsk_flags_t": ("sizeof(tsk_flags_t)", "sizeof(uint32_t)"),
+             "char": ("sizeof(char)", "sizeof(int8_t)", "sizeof(uint8_t)")}
+
+
+def getters(ctx, P, S, rule="SCHEMA-GETTER"):
+    ctx.rule(rule, "every column getter of the module hands out the like-named column with the matching (length, dtype, pointer) "
+                   "triple: <Table>_get_<col> copies num_rows elements of sizeof(elem) (offsets: num_rows + 1 through "
+                   "table_get_offset_array, ragged data: <col>_length), TreeSequence_get_<table>s_<col> views "
+                   "tables-><table>s.<col> with <table>s.num_rows / <col>_length / num_rows + 1 elements and the dtype of the element type")
+    tu = P.tus["module"]
+    n = 0
+    for t, sc in S.items():
+        pl, cls = PLURAL[t], CLS[t]
+        cols = [(c, e, "num_rows") for c, e in sc.fixed] + [(c, e, c + "_length") for c, e in sc.ragged] + \
+               [(c + "_offset", "tsk_size_t", "num_rows+1") for c, e in sc.ragged]
+        for col, elem, ln in cols:
+            # ---- table getter
+            fn = tu.funcs.get("%s_get_%s" % (cls, col))
+            if fn is not None:
+                F = Facts(P, fn)
+                n += 1
+                if col.endswith("_offset"):
+                    hits = F.calls_to("table_get_offset_array")
+                    ok = any(a == ["self->table->num_rows", "self->table->" + col] for a, x in hits)
+                    ctx.ob(rule, "%s_get_%s" % (cls, col), ok, F.loc(fn.node), "table_get_offset_array(self->table->num_rows, self->table->%s); found %s" % (col, [a for a, x in hits]))
+                else:
+                    hits = F.calls_to("table_get_column_array")
+                    want_len = "self->table->" + ln
+                    ok = False
+                    for a, x in hits:
+                        if len(a) == 4 and a[0] == want_len and a[1] == "self->table->" + col and a[2] in GETTER_NPY[elem] \
+                                and (a[3] in SIZEOF_EQ[elem] or a[3] == "sizeof(*self->table->%s)" % col):
+                            ok = True
+                    ctx.ob(rule, "%s_get_%s" % (cls, col), ok, F.loc(fn.node),
+                           "table_get_column_array(%s, self->table->%s, %s, sizeof(%s)); found %s" % (want_len, col, NPY_TYPE[elem][0], elem, [a for a, x in hits]))
+            # ---- tree sequence getter
+            fn = tu.funcs.get("TreeSequence_get_%s_%s" % (pl, col))
+            if fn is not None:
+                F = Facts(P, fn)
+                hits = F.calls_to("TreeSequence_make_array")
+                n += 1
+                base = "self->tree_sequence->tables->%s" % pl
+                if ln == "num_rows+1":
+                    want_len = ("(%s.num_rows + 1)" % base,)
+                    want_ty = NPY_OFFSET
+                else:
+                    want_len = ("%s.%s" % (base, ln),)
+                    want_ty = GETTER_NPY[elem]
+                ok = any(len(a) == 4 and a[1] in want_len and a[2] in want_ty and a[3] == "%s.%s" % (base, col) for a, x in hits)
+                ctx.ob(rule, "TreeSequence_get_%s_%s" % (pl, col), ok, F.loc(fn.node),
+                       "make_array(self, %s, %s, %s.%s); found %s" % (want_len[0], want_ty[0], base, col, [a for a, x in hits]))
+    ctx.ob(rule, "instances", n >= 60, "python/_tskitmodule.c", "%d getters analysed" % n)
+    # the getset tables route each python name to the like-named getter
+    from sa import modinfo
+    meths, getsets = modinfo.method_tables(tu)
+    for tname, rows in getsets.items():
+        cls = tname.replace("_getsetters", "")
+        for pyname, g, s_ in rows:
+            if g is None:
+                continue
+            ok = g.endswith("_get_" + pyname)
+            if cls in ("TreeSequence",) or cls in CLS.values():
+                ctx.ob(rule, "getset|%s.%s" % (cls, pyname), ok, "python/_tskitmodule.c (%s)" % tname, "attribute `%s` -> %s" % (pyname, g))
